@@ -36,12 +36,20 @@ for p in props:
         level_claimed=dict(
             category='other',
             text=('Static analysis of the current source: ' + const(tree, 'EXPLANATION') +
+                  ' In addition (R%s.0) every statement of the functions this property is anchored in (reference/scope.json) is compared '
+                  'with the instance confirmed on the reference tree, modulo commutativity / keyword order / numeric spelling; a statement '
+                  'that is exactly one semantic mutation away (swapped operands, arguments or subscripts, changed constant, flipped sign or '
+                  'comparison, +-1 offset, dropped keyword or conjunct, one variable replaced by another) is a violation, any other '
+                  'rewrite gives no verdict; and (R%s.G) the same functions are searched for memoisation and forwarding defect patterns '
+                  '(stale value after a memo miss, under-keyed memo, memo not reset by a state writer, rebound option forwarded, '
+                  'configuration not inherited by a derived object, error estimate by difference of squares, memo hit by tolerant equality).'
+                  % (pid[1:], pid[1:]) +
                   ' A pass means every enumerated structural obligation is met by /repo as it is now; it is a necessary-condition '
                   'check over all inputs the code handles, not a statement about numerical values.'),
             design_ref='DESIGN.md section 3, ' + pid),
         level_note=('Trusted: Python ast / Cython parser, numpy/scipy semantics as documented, the frozen instance tables in rules/%s.py '
                     '(confirmed by reading). Does not decide: %s' % (pid, const(tree, 'DOES_NOT_DECIDE'))),
-        technique=const(tree, 'TECHNIQUE', 'custom AST rules (table agreement, guard dominance, sibling comparison)'),
+        technique=const(tree, 'TECHNIQUE', 'custom AST rules (table agreement, guard dominance, sibling comparison)') + '; statement-level comparison with confirmed reference instances (canonical trees, single-mutation classification); memoisation/forwarding pattern detectors',
     ))
 man = dict(
     version=1,
